@@ -7,18 +7,24 @@ func (cw *CodeWriter) WriteLeadingComments(comments []string) {
 
 	for i, comment := range comments {
 		isComment := len(comment) > 0
+		// nothing is written in front of the first character of the output: leading
+		// white space would be trimmed afterwards, behind the back of the source map
+		atStart := cw.Builder.Len() == 0
 		if i == 0 {
-			if isComment {
+			if isComment && !atStart {
 				cw.Builder.WriteRune(' ')
+				cw.advanceMapper(" ")
 			}
-		} else {
+		} else if !atStart {
 			cw.writeNewline()
 			cw.writeIndent()
 		}
 		if isComment {
 			cw.Builder.WriteString("//")
+			cw.advanceMapper("//")
 		}
 		cw.Builder.WriteString(comment)
+		cw.advanceMapper(comment)
 	}
 
 	// Clear pendings and move to the next line
